@@ -17,5 +17,5 @@ REGISTRY["C06"] = c06check.run
 
 REGISTRY["C04"] = crashcheck.run
 
-for p in ("C14", "C15", "C16", "C17"):
+for p in ("C14", "C15", "C16", "C17", "C18", "C19"):
     REGISTRY[p] = servecheck.run
